@@ -73,7 +73,7 @@ class Sink(threading.Thread):
 class Collector:
     """one incarnation after the other of the real binary in one working directory"""
 
-    def __init__(self, ctx, binary, workdir, sink_port, workers=4, extra_cfg="", stats_format="restful"):
+    def __init__(self, ctx, binary, workdir, sink_port, workers=4, extra_cfg="", stats_format="restful", producer=True):
         self.ctx, self.binary, self.dir = ctx, binary, workdir
         self.stats_format = stats_format
         self.ports = {p: free_port(socket.SOCK_DGRAM) for p in ("ipfix", "netflow9", "netflow5", "sflow")}
@@ -100,10 +100,10 @@ netflow5-port: %(netflow5)d
 netflow5-workers: %(w)d
 sflow-port: %(sflow)d
 sflow-workers: %(w)d
-producer-enabled: true
+producer-enabled: %(producer)s
 mq-name: rawSocket
 mq-config-file: mq.conf
-%(extra)s""" % dict(dir=workdir, stats=self.stats_port, w=workers, extra=extra_cfg, fmt=stats_format, **self.ports)
+%(extra)s""" % dict(dir=workdir, stats=self.stats_port, w=workers, extra=extra_cfg, fmt=stats_format, producer="true" if producer else "false", **self.ports)
         with open(os.path.join(workdir, "vflow.conf"), "w") as fh:
             fh.write(cfg)
         with open(os.path.join(workdir, "mq.conf"), "w") as fh:
